@@ -67,7 +67,9 @@ func mkVectorTarget(kind int, r *rand.Rand) target {
 	case 3:
 		idx, _ = comet.NewIVFPQIndex(dim, comet.Euclidean, 2, 2, 2)
 	default:
-		idx, _ = comet.NewHNSWIndex(dim, comet.Euclidean, 4, 400, 400)
+		// M far above the number of vectors a run adds: the visibility clause is only decidable for HNSW in
+		// the regime where its search is exhaustive (C12: at most 2*M resident vectors, ef at least that)
+		idx, _ = comet.NewHNSWIndex(dim, comet.Euclidean, 2048, 5000, 5000)
 		name = "hnsw"
 	}
 	if kind >= 1 && kind <= 3 {
